@@ -62,7 +62,7 @@ def write_replay(prop, o, run=True):
 def lib_objects():
     """static library of /repo's current lib/*.cpp built with sanitizers, cached by source hash"""
     h = astdb.source_hash()
-    d = os.path.join(astdb.WORK, 'native', h)
+    d = os.path.join(astdb.WORK, 'native', h + 'g')     # 'g': built with float-cast-overflow checking (non-recoverable)
     lib = os.path.join(d, 'libdsplib_san.a')
     if os.path.exists(lib):
         return lib
@@ -79,7 +79,7 @@ def lib_objects():
         o = os.path.join(d, hashlib.md5(s.encode()).hexdigest()[:10] + '.o')
         objs.append(o)
         procs.append(subprocess.Popen(['g++', '-std=c++17', '-O1', '-g', '-DNDEBUG', '-DDSPLIB_FFT_CACHE_SIZE=4',
-                                       '-fsanitize=address,undefined', '-fno-sanitize-recover=undefined',
+                                       '-fsanitize=address,undefined,float-cast-overflow', '-fno-sanitize-recover=undefined,float-cast-overflow',
                                        '-I' + os.path.join(astdb.REPO, 'include'), '-I' + astdb.GEN,
                                        '-I' + os.path.join(astdb.REPO, 'lib'), '-c', s, '-o', o],
                                       stdout=subprocess.PIPE, stderr=subprocess.STDOUT))
@@ -91,7 +91,7 @@ def lib_objects():
     # prune older builds
     nd = os.path.join(astdb.WORK, 'native')
     for fn in os.listdir(nd):
-        if fn != h:
+        if fn != h + 'g':
             subprocess.call(['rm', '-rf', os.path.join(nd, fn)])
     return lib
 
@@ -104,8 +104,8 @@ def run_native(src, timeout=60):
     exe = cpp[:-4]
     with open(cpp, 'w') as f:
         f.write(src)
-    r = subprocess.run(['g++', '-std=c++17', '-O1', '-g', '-DNDEBUG', '-fsanitize=address,undefined',
-                        '-fno-sanitize-recover=undefined', '-I' + os.path.join(astdb.REPO, 'include'),
+    r = subprocess.run(['g++', '-std=c++17', '-O1', '-g', '-DNDEBUG', '-fsanitize=address,undefined,float-cast-overflow',
+                        '-fno-sanitize-recover=undefined,float-cast-overflow', '-I' + os.path.join(astdb.REPO, 'include'),
                         '-I' + astdb.GEN, '-I' + os.path.join(astdb.REPO, 'lib'), cpp, lib, '-pthread', '-o', exe],
                        capture_output=True, text=True)
     if r.returncode != 0:
